@@ -430,9 +430,13 @@ def engine_inotify(tier, seed):
                                 names='{0, 1, 2, 15, 16, 17}')),
              ('inotify_3', dict(maxrecs=3, wds='WdsSmall', known='KnownSmall', kinds='{"plain", "ignored", "overflow"}',
                                 names='{0, 16}'))]
+    # Names up to NAME_MAX: the largest record the kernel can produce must fit the read buffer.
     if tier == 'thorough':
         confs.append(('inotify_255', dict(maxrecs=2, wds='WdsSmall', known='KnownSmall', kinds='{"plain", "ignored"}',
                                           names='{0, 1, 31, 32, 33, 239, 240, 255}')))
+    else:
+        confs.append(('inotify_255', dict(maxrecs=2, wds='WdsSmall', known='KnownSmall', kinds='{"plain"}',
+                                          names='{0, 239, 240, 255}')))
     for name, c in confs:
         # 1. contract (no deviation): HeldValid holds.
         cfg = write_cfg(name + '_contract', INOTIFY_CFG % dict(c, dev='{}', held='HeldValid'))
